@@ -6,6 +6,13 @@ ROOT = os.path.dirname(os.path.dirname(os.path.abspath(__file__)))
 
 # id -> (category, technique, level text, level note, design ref)
 CHECKS = {
+ "C12": ("exploration",
+   "stateful proptest bursts against gated handlers with an adaptive conforming/exceeding scripted peer; overlap/byte/liveness oracle",
+   "Generated bursts of publishes (QoS 0/1/2, sizes around the byte limit, some streamed), PINGREQ and gated SUBSCRIBE, released in generated order, over the configuration grid max_receive 0..4 x "
+   "max_receive_size {0,64,1024,65535} (v3 default middleware) and Receive Maximum 1..4 (v5 server and client); the scripted v5 peer either stays within Receive Maximum or exceeds it at a generated point. "
+   "Handler overlap and packet bytes must stay within the limits, 0x93 is sent exactly to the exceeding peer, and with all gates open every publish is handled, read to its end, acknowledged and PINGREQ answered.",
+   "Trusted: as C03. Exceeding is only judged when Receive Maximum publishes sit in unfinished handlers and no byte limit has paused reading.",
+   "DESIGN.md section 3 C12"),
  "C17": ("exploration",
    "model-based stateful testing (per-connection alias map) with bounded-exhaustive short histories + proptest histories over two connections",
    "Every history of <=3 (quick) / <=4 (thorough) publishes over {topic only, bind, use} x two topics x aliases {1, max, max+1}, plus random histories of up to 10 publishes interleaved on two "
